@@ -47,18 +47,60 @@ theorem onSubspace_sound {A : QM3} {gi : Q3} {sp : Space} {q : Q3} {r2 : Rat}
   obtain ⟨nx, _, ny, _, nz, _, hle⟩ := h
   exact ⟨⟨nx, ny, nz⟩, _, hle⟩
 
+/-- The nearest-integer representative has the smallest square among all integer translates. -/
+theorem wrap_sq_le (x : Rat) (n : Int) : ratWrap x * ratWrap x ≤ (x + n) * (x + n) := by
+  obtain ⟨h1, h2⟩ := ratRound_close x
+  have hk : x + n = ratWrap x + ((ratRound x + n : Int) : Rat) := by
+    unfold ratWrap; push_cast; ring
+  rw [hk]
+  generalize hw : ratWrap x = w
+  have hw1 : w ≤ 1 / 2 := by rw [← hw]; unfold ratWrap; linarith
+  have hw2 : -(1 / 2) ≤ w := by rw [← hw]; unfold ratWrap; linarith
+  generalize ratRound x + n = k
+  rcases Int.lt_trichotomy k 0 with hk | hk | hk
+  · have : (k : Rat) ≤ -1 := by exact_mod_cast (by omega : k ≤ -1)
+    nlinarith
+  · subst hk; simp
+  · have : (1 : Rat) ≤ k := by exact_mod_cast (by omega : 1 ≤ k)
+    nlinarith
+
+/-- The pre-test never rejects a point that has a lattice translate within `r2`. -/
+theorem quickFar_false {A : QM3} {d : Q3} {r2 : Rat} (hA : A.det ≠ 0) (h : PeriodicWithin A d r2) :
+    quickFar (ginvDiag A) d r2 = false := by
+  obtain ⟨n, hn⟩ := h
+  obtain ⟨bx, by', bz⟩ := cauchy_schwarz_box A hA ⟨d.x + n.x, d.y + n.y, d.z + n.z⟩
+  obtain ⟨gx, gy, gz⟩ := ginvDiag_nonneg A
+  simp only at bx by' bz
+  have wx := wrap_sq_le d.x n.x
+  have wy := wrap_sq_le d.y n.y
+  have wz := wrap_sq_le d.z n.z
+  unfold quickFar axisFar
+  simp only [Bool.or_eq_false_iff, decide_eq_false_iff_not, not_lt]
+  refine ⟨⟨?_, ?_⟩, ?_⟩ <;> nlinarith
+
 /-- An operation counted in the stabilizer fixes the site (soundness of the count). -/
 theorem stabilizer_mem_sound {A : QM3} {gi : Q3} {ops : List HOp} {s : Q3} {eps2 : Rat} {g : HOp}
-    (h : g ∈ ops.filter fun g => withinPeriodic A gi (((g.rot.applyQ s).add (g.trans.toQ 12)).sub s) eps2) :
+    (h : g ∈ ops.filter (fixesSite A gi s eps2)) :
     g ∈ ops ∧ PeriodicWithin A (((g.rot.applyQ s).add (g.trans.toQ 12)).sub s) eps2 := by
   rw [List.mem_filter] at h
-  exact ⟨h.1, withinPeriodic_sound h.2⟩
+  refine ⟨h.1, ?_⟩
+  have := h.2
+  unfold fixesSite at this
+  simp only [Bool.and_eq_true] at this
+  exact withinPeriodic_sound this.2
 
 /-- … and, for non-degenerate lattices and radii inside the scanned window, exactly those. -/
 theorem stabilizer_mem_iff {A : QM3} {ops : List HOp} {s : Q3} {eps2 : Rat} (hA : A.det ≠ 0) (hw : Window A eps2) (g : HOp) :
-    (g ∈ ops.filter fun g => withinPeriodic A (ginvDiag A) (((g.rot.applyQ s).add (g.trans.toQ 12)).sub s) eps2) ↔
+    (g ∈ ops.filter (fixesSite A (ginvDiag A) s eps2)) ↔
     (g ∈ ops ∧ PeriodicWithin A (((g.rot.applyQ s).add (g.trans.toQ 12)).sub s) eps2) := by
-  rw [List.mem_filter, withinPeriodic_iff hA hw]
+  constructor
+  · exact stabilizer_mem_sound
+  · rintro ⟨hg, hp⟩
+    rw [List.mem_filter]
+    refine ⟨hg, ?_⟩
+    unfold fixesSite
+    simp only [Bool.and_eq_true, Bool.not_eq_true']
+    exact ⟨quickFar_false hA hp, withinPeriodic_complete hA hw hp⟩
 
 /-! ### labelling clauses -/
 
